@@ -35,7 +35,8 @@
     scanned frames in any order, any depth — through the generic chain induction
     `walkLoop_chain_generic` (Lemmas/WalkChainMixed.lean). `walk_layout_win` (x86 STACK WIN chains,
     any depth) and the x86 part of `walk_layout_mixed` without STACK CFI frames are PROVED in
-    `MdProofs/C04Win.lean`; the full statement `walk_layout_mixed` is a comment below.
+    `MdProofs/C04Win.lean`; the full statement `walk_layout_mixed` — all four techniques, any order,
+    any depth, all seven context kinds/modes, from `PreW` — is PROVED in `MdProofs/C04Mixed.lean`.
 -/
 import MdProofs.Lemmas.WalkChain
 import MdProofs.Lemmas.WalkScanChain
@@ -303,22 +304,19 @@ theorem walk_layout_scan'_concrete (a : Arch) (os : Os) (w : World) (mem : Mem) 
   simp at hni
 
 /-
-  Stated, not proved (the tie checks them on every generated case; see the header):
+  `walk_layout_mixed` (stated here as a comment in earlier rounds) is a theorem of
+  `MdProofs/C04Mixed.lean`:
 
   theorem walk_layout_mixed (a : Arch) (os : Os) (w : World) (wins : List (List Win.Rec)) (mem : Mem)
       (ctx : Ctx) (chain : List Exp) :
       PreW w wins (mkEnvW a os w wins mem) a os mem ctx chain = true →
-      walk (mkEnvW a os w wins mem) (some mem) ctx = context frame :: one frame per `e ∈ chain` with
-        trust by `e.tech` (cfi / frame_pointer / scan; `win` ↦ cfi), ip = e.ret, sp = e.sp, frame
-        pointer `e.fp` and registers `e.regs` valid with these values
-      — `PreW` (MdModel/Walk/LayoutMixed.lean) is evaluated on every generated `mixed` / `win` case;
-      proved part: `walk_layout_mixed_partial` (ARM64, fp / scan) and the generic chain induction
-      `walkLoop_chain_generic` every technique plugs into.
-  (`walk_layout_win`, the instance of `walk_layout_mixed` for x86 chains all of whose frames are
-   found through STACK WIN records, and `walk_layout_mixed_x86_partial` — x86, techniques win / fp /
-   scan — are theorems now: MdProofs/C04Win.lean.)
+      ∃ frames, walk (mkEnvW a os w wins mem) (some mem) ctx = context frame :: frames ∧
+        All2 (frame `FrameIsA a (techTrust e) e`) frames chain
 
-  (`walk_layout_cfi` is no longer here: it is a theorem of `MdProofs/C04Cfi.lean`.)
+  `walk_layout_mixed_partial` below (ARM64, fp / scan), `walk_layout_win` and
+  `walk_layout_mixed_x86_partial` (MdProofs/C04Win.lean) and `walk_layout_cfi` /
+  `walk_layout_cfi_regs` (MdProofs/C04Cfi.lean) are its single-technique / partial predecessors,
+  kept as they are (their conclusions give the frames in closed form).
 -/
 
 /-! ## non-vacuity: a two-call frame-pointer chain on x86-64 satisfying `preFp` -/
